@@ -48,6 +48,14 @@ Qed.
 Lemma dangling_fp e : dangling (full_paren e) = false.
 Proof. destruct e; reflexivity. Qed.
 
+Lemma forallb_map_in {A B} (p : A -> bool) (q : B -> bool) (f : A -> B) l :
+  (forall a, In a l -> p a = true -> q (f a) = true) -> forallb p l = true -> forallb q (map f l) = true.
+Proof.
+  induction l as [|x l IH]; cbn; intros H Hp; [reflexivity|].
+  apply andb_true_iff in Hp as [H1 H2]. rewrite (H x (or_introl eq_refl) H1). apply IH; [|exact H2].
+  intros a Hin. apply H. right; exact Hin.
+Qed.
+
 Lemma fp_all : forall n e, (esize e < n)%nat -> core_expr e = true ->
   core_expr (full_paren e) = true /\ (forall k last, wpx k last (full_paren e) = true) /\
   strip_paren (strip_spans (full_paren e)) = strip_paren (strip_spans e).
@@ -62,6 +70,44 @@ Proof.
   - (* EField *)
     destruct (IH e ltac:(lia) Hc) as (A & B & C).
     cbn [full_paren core_expr wpx strip_spans strip_paren]. rewrite A, !B, C. repeat split; reflexivity.
+  - (* EIndex *)
+    apply andb_true_iff in Hc as [Hc1 Hc2].
+    destruct (IH e1 ltac:(lia) Hc1) as (A1 & B1 & C1). destruct (IH e2 ltac:(lia) Hc2) as (A2 & B2 & C2).
+    cbn [full_paren core_expr wpx strip_spans strip_paren andb].
+    rewrite A1, A2, !B1, !B2, C1, C2. repeat split; reflexivity.
+  - (* ESlice *)
+    apply andb_true_iff in Hc as [Hc Hcc]. apply andb_true_iff in Hc as [Hc Hcb]. apply andb_true_iff in Hc as [Hcx Hca].
+    destruct (IH e ltac:(lia) Hcx) as (A1 & B1 & C1).
+    assert (Ho : forall o, (osz esize o < n)%nat -> match o with Some y => core_expr y | None => true end = true ->
+              match option_map full_paren o with Some y => core_expr y | None => true end = true /\
+              opt_all (wpx 0 true) (option_map full_paren o) = true /\
+              option_map strip_paren (option_map strip_spans (option_map full_paren o)) =
+              option_map strip_paren (option_map strip_spans o)).
+    { intros [y|] Hs Hy; cbn [option_map opt_all osz] in *; [|repeat split; reflexivity].
+      destruct (IH y Hs Hy) as (A & B & C). rewrite A, B, C. repeat split; reflexivity. }
+    destruct (Ho a ltac:(lia) Hca) as (Aa & Ba & Ca). destruct (Ho b ltac:(lia) Hcb) as (Ab & Bb & Cb).
+    destruct (Ho c ltac:(lia) Hcc) as (Ac & Bc & Cc).
+    cbn [full_paren core_expr wpx strip_spans strip_paren andb].
+    rewrite A1, Aa, Ab, Ac, !B1, Ba, Bb, Bc, C1, Ca, Cb, Cc. repeat split; reflexivity.
+  - (* ECall *)
+    apply andb_true_iff in Hc as [Hcf Hca].
+    destruct (IH e ltac:(lia) Hcf) as (A1 & B1 & C1).
+    assert (Ha : forall a, In a args -> acore a = true ->
+              acore (fp_arg a) = true /\ wp_arg (fp_arg a) = true /\
+              unp_arg (strip_arg (fp_arg a)) = unp_arg (strip_arg a)).
+    { intros a Hin Hac. pose proof (lsum_in arg_size args a Hin) as Hle.
+      destruct a as [y|nm y]; cbn [acore fp_arg wp_arg strip_arg unp_arg arg_size] in *;
+        destruct (IH y ltac:(lia) Hac) as (A & B & C); rewrite A, B, C; repeat split; reflexivity. }
+    cbn [full_paren core_expr wpx strip_spans strip_paren andb].
+    rewrite A1, !B1, C1.
+    assert (E1 : forallb (fun a => match a with APositional y | ANamed _ y => core_expr y end) (map fp_arg args) = true).
+    { apply (forallb_map_in acore acore fp_arg); [intros a Hin Hac; apply (Ha a Hin Hac)|exact Hca]. }
+    assert (E2 : forallb wp_arg (map fp_arg args) = true).
+    { apply (forallb_map_in acore wp_arg fp_arg); [intros a Hin Hac; apply (Ha a Hin Hac)|exact Hca]. }
+    assert (E3 : map unp_arg (map strip_arg (map fp_arg args)) = map unp_arg (map strip_arg args)).
+    { rewrite !map_map. apply map_ext_in. intros a Hin. apply Ha; [exact Hin|].
+      rewrite forallb_forall in Hca. apply (Hca a Hin). }
+    rewrite E1, E2, E3. repeat split; reflexivity.
   - (* EIf *)
     apply andb_true_iff in Hc as [Hc Hc3]. apply andb_true_iff in Hc as [Hc1 Hc2].
     destruct (IH e1 ltac:(lia) Hc1) as (A1 & B1 & C1). destruct (IH e2 ltac:(lia) Hc2) as (A2 & B2 & C2).
